@@ -7,7 +7,7 @@ RUN_MODULE = "RunC08"
 DRIVER = "equalizer_sim.py"
 SHARD = 400
 RULE = ("one case = one comparison run of the real Equalizer over a script (sequence of recording ids, each with one of "
-        "19 behaviour texts: 9 verdict-level, 10 process-level) in dedicated (simulated multiprocessing) or in-process "
+        "21 behaviour texts: 9 verdict-level, 9 process-level + 3 in the F08 probe streams) in dedicated (simulated multiprocessing) or in-process "
         "mode, recycle rate, timeout, keep-results on/off, consumed fully / closed after n / consumer raising after n / "
         "id source raising after n; each case also plays every recording alone and the whole script in the other mode; "
         "non-trivial = at least two recordings and at least one behaviour other than 'equal'; distinct = distinct case")
@@ -24,7 +24,7 @@ TRUSTED = ["fake multiprocessing / clock / kill (harness/impl/fake_mp.py) under 
            "real-process scripts (thorough tier) are checked by the direct predicate only"]
 
 MAIN = G.VERDICT_BEH + G.PROCESS_BEH
-W_MAIN = [30, 8, 6, 6, 6, 3, 2, 1, 1] + [5, 5, 6, 3, 5, 2, 3, 3, 2, 2]
+W_MAIN = [30, 8, 6, 6, 6, 3, 2, 1, 1] + [5, 5, 6, 3, 2, 3, 3, 2, 2]
 
 
 def generate(rng, tier):
@@ -37,8 +37,8 @@ def generate(rng, tier):
                           consume=G.rand_consume(rng, len(ids))))
     # every behaviour at every position of a short run, all small rates
     alpha3 = ["equal", "different", "player_raises", "extractor_raises", "comparator_raises", "bare:Fixed",
-              "exit0", "exit1", "hang", "drops", "slow:2", "slow:4"]
-    alpha4 = ["equal", "extractor_raises", "exit0", "hang", "slow:3", "drops"]
+              "exit0", "exit1", "hang", "hang_deaf", "slow:2", "slow:4"]
+    alpha4 = ["equal", "extractor_raises", "exit0", "hang", "slow:3", "player_raises"]
     if tier == "quick":
         for ids, behs in G.exhaustive(alpha3, 2):
             for rate in (1, 2):
@@ -54,15 +54,16 @@ def generate(rng, tier):
     # probe streams for the known finding F08 (untagged queues): late answers and stale tasks
     n_probe = 30 if tier == "quick" else 400
     for k in range(n_probe):
-        ids, behs = G.rand_script(rng, MAIN + G.F08_BEH, W_MAIN + [25, 25], 8, dup=0.05)
+        ids, behs = G.rand_script(rng, MAIN + G.F08_BEH, W_MAIN + [25, 25, 25], 8, dup=0.05)
         if not any(b in G.F08_BEH for b in behs):
             ids.append(max(ids + [0]) + 1)
-            behs.append(G.F08_BEH[k % 2])
+            behs.append(G.F08_BEH[k % 3])
         cases.append(G.mk(ids, behs, rate=rng.choice([1, 2, 3, 5]), timeout=rng.choice([1, 2]), keep=rng.random() < 0.5,
                           consume=G.rand_consume(rng, len(ids)), probe="F08"))
     cases.append(G.mk([1, 2, 3, 4], ["equal", "late", "equal", "different"], rate=5, probe="F08"))    # the refuted theorems' witnesses
     cases.append(G.mk([1, 2, 3, 4], ["equal", "dies_before", "equal", "different"], rate=5, probe="F08"))
     cases.append(G.mk([1, 2, 3], ["late", "hang", "equal"], rate=1, probe="F08"))
+    cases.append(G.mk([1, 2, 3, 4], ["equal", "drops", "equal", "different"], rate=5, probe="F08"))
     if tier != "quick":
         from lib import eqreal
         cases += eqreal.real_cases("C08")
